@@ -187,6 +187,17 @@ var c10Msgs = []string{
 	"<a href=\"x\">{$a}</a> <a href=\"y\">{$b}</a>",                // 11 two link tags that differ in an attribute
 	"{$a|truncate:5} is short for {$a|truncate:40}{$a|truncate:5}", // 12 one directive with different arguments
 	"{$a.b}{$a?.b}{$a['b']}{$a.b}",                                 // 13 access styles of one field
+	"1 < 2 <b>x</b> and a <= b <br/> c",   // 14 '<' that does not begin a tag, before real tags
+	"<<a href=\"u\">>t</a> < </b>",          // 15
+}
+
+// the official placeholder string of some messages (what their id is the fingerprint of)
+var c10Official = map[int]string{
+	3:  "{START_LINK}{FOO_BAR_1}{END_LINK}{BREAK}{FOO_BAR_2}",
+	7:  "{START_BOLD}{A}{END_BOLD} {START_BOLD}x{END_BOLD}{FOO_2_BAR}",
+	11: "{START_LINK_1}{A}{END_LINK} {START_LINK_2}{B}{END_LINK}",
+	14: "1 < 2 {START_BOLD}x{END_BOLD} and a <= b {BREAK} c",
+	15: "<{START_LINK}>t{END_LINK} < {END_BOLD}",
 }
 
 // wellDefined: messages on which the official algorithm gives every placeholder a name
@@ -346,6 +357,9 @@ func H_names(msg, site int) {
 		}
 	}
 	verifAssert(m.ID == ref.ID, "message id depends on map iteration order")
+	if want, ok := c10Official[msg]; ok {
+		verifAssert(PlaceholderString(m) == want, "placeholder string differs from the official one (which tags and prints are placeholders, under which names)")
+	}
 	if c10WellDefined(msg) {
 		verifAssert(names == refNames(m), "placeholder names differ from the official algorithm")
 		verifAssert(m.ID == refID([]byte(c10FpString(m)), nil), "message id is not the official fingerprint of the placeholder string")
